@@ -203,6 +203,14 @@ pub fn gen(args: &Args, out: &mut dyn Write) {
             3 => { c[0] = -c[0].abs(); c[1] = (mag * 1e-5) as f32 }           // near the +-180 degree seam
             _ => {}
         }
+        // every 16th: one horizontal component smaller than the others by a factor beyond 2^64 (yet non-zero)
+        if i % 16 == 9 {
+            let tiny = (mag * 2f64.powi(-(66 + rng.range(0, 20) as i32))) as f32;
+            let j = if rng.chance(1, 2) { 0 } else { 2 };
+            c[j] = if tiny != 0.0 { tiny } else { f32::from_bits(1) };
+            c[1] = (mag * (0.3 + 0.7 * rng.unit_f64())) as f32;
+            c[2 - j] = (mag * (0.3 + 0.7 * rng.unit_f64())) as f32 * if rng.chance(1, 2) { -1.0 } else { 1.0 };
+        }
         if c[0] != 0.0 || c[1] != 0.0 {
             emit(out, json!({"op": "vec2", "c": [hx(c[0]), hx(c[1])]}));
         }
